@@ -462,3 +462,103 @@ Proof.
       destruct (i_blk _ I b Hb Hba) as [_ Hq]. rewrite Et in Hq. destruct Hq as [Hq _].
       rewrite Hbq in Hq. fold P in Hq. fold vt in E. rewrite <- Hq, <- E, params_eqb_refl in Eeq. discriminate.
 Qed.
+
+Lemma step_dealloc st h b n shrink : inv st -> proto_ok st (OpDealloc h b n shrink) = true ->
+  step_good st (OpDealloc h b n shrink).
+Proof.
+  intros I Hp. simpl in Hp. repeat rewrite andb_true_iff in Hp.
+  destruct Hp as [[[[[Hok Hb] Hba] Hbp] Hbv] Hbn].
+  apply handle_ok_spec in Hok as [Hh Ha]. apply Nat.ltb_lt in Hb. apply Nat.eqb_eq in Hbp.
+  apply vt_eqb_eq in Hbv. apply Z.eqb_eq in Hbn.
+  destruct (handle_pool_alive st h I Hh Ha) as [Hlt [Hr Hal]].
+  destruct (i_blk _ I b Hb Hba) as [_ Htag].
+  unfold step_good, step. rewrite Hba.
+  set (p := hpool (handles st h)) in *. set (vt := hvt (handles st h)) in *. set (P := pools st p) in *.
+  set (B := blocks st b) in *.
+  destruct (btag B) as [q|s] eqn:Et.
+  - (* a pooled block *)
+    destruct Htag as [Hq1 [Hq2 Hq3]]. rewrite Hbp in Hq1. fold P in Hq1. rewrite Hbv in Hq2.
+    assert (T : ((n =? 1)%Z && params_eqb (get_params vt) (pparams P)) = true).
+    { rewrite <- Hbn, Hq3, <- Hq2, Hq1, params_eqb_refl. reflexivity. }
+    rewrite T. clear T.
+    pose proof (i_cnt _ I p Hlt) as C. fold P in C.
+    pose proof (sumn_ge (nblocks st) (fun k => pooled_in p (blocks st k)) b Hb) as G. cbv beta in G.
+    fold B in G. rewrite (pooled_in_1 p B Hba) in G by (try rewrite Et; auto).
+    destruct (pcount P) as [|c] eqn:Ecn; [lia|].
+    eexists _, _. split; [reflexivity|]. split; [|split].
+    + constructor; unfold set_block, set_pool; proj.
+      * intros k Hk Hka. destruct (Nat.eq_dec k b) as [->|Hne]; [rewrite updn_same in Hka; discriminate|].
+        rewrite updn_other in * by lia. apply (blk_inv_frame st); [apply (i_blk _ I k Hk Hka) | proj; lia |].
+        proj. unfold updn. destruct (Nat.eqb_spec (bpool (blocks st k)) p) as [->|]; reflexivity.
+      * intros r Hrq.
+        pose proof (sumn_set (pooled_in r) (blocks st) (nblocks st) b (mkBlock false (bpool B) (bvt B) (bn B) (Pooled q)) Hb) as E.
+        fold B in E.
+        assert (E0 : pooled_in r (mkBlock false (bpool B) (bvt B) (bn B) (Pooled q)) = 0) by reflexivity.
+        assert (E1 : pooled_in r B = if Nat.eqb p r then 1 else 0).
+        { unfold pooled_in. rewrite Hba, Et, Hbp. reflexivity. }
+        rewrite E0, E1 in E. unfold updn at 1. destruct (Nat.eqb_spec r p) as [->|Hne]; proj.
+        -- rewrite Nat.eqb_refl in E. lia.
+        -- destruct (Nat.eqb_spec p r); [lia|]. rewrite (i_cnt _ I r Hrq). lia.
+      * intros r Hrq. unfold updn. destruct (Nat.eqb_spec r p) as [->|]; proj; apply (i_refs _ I); auto.
+      * intros r Hrq. unfold updn. destruct (Nat.eqb_spec r p) as [->|]; proj; apply (i_alive _ I); auto.
+      * apply (i_hnd _ I).
+    + unfold routed_ok; proj. simpl. rewrite Hq1. apply params_eqb_refl.
+    + unfold balanced; proj.
+      pose proof (out_set_block (set_pool st p (mkPool (pparams P) c (prefs P) (pheld P - Nat.min shrink (pheld P)) (palive P)))
+                    b (mkBlock false (bpool B) (bvt B) (bn B) (Pooled q))) as E1.
+      specialize (E1 Hb). change (blocks (set_pool _ _ _) b) with B in E1.
+      unfold raw_out at 1 2 in E1; proj. rewrite Et in E1. simpl in E1. rewrite andb_false_r in E1.
+      pose proof (out_set_pool st p (mkPool (pparams P) c (prefs P) (pheld P - Nat.min shrink (pheld P)) (palive P)) Hlt) as E2.
+      unfold pool_out in E2; proj. fold P in E2. rewrite Hal in E2 |- *. lia.
+  - (* a raw block *)
+    destruct Htag as [Hs Hn1]. rewrite Hbn in Hn1.
+    destruct (Z.eqb_spec n 1) as [|_]; [contradiction|]. simpl.
+    eexists _, _. split; [reflexivity|]. split; [|split].
+    + constructor; unfold set_block; proj.
+      * intros k Hk Hka. destruct (Nat.eq_dec k b) as [->|Hne]; [rewrite updn_same in Hka; discriminate|].
+        rewrite updn_other in * by lia. apply (blk_inv_frame st); [apply (i_blk _ I k Hk Hka) | proj; lia | reflexivity].
+      * intros r Hrq.
+        pose proof (sumn_set (pooled_in r) (blocks st) (nblocks st) b (mkBlock false (bpool B) (bvt B) (bn B) (RawMem s)) Hb) as E.
+        fold B in E.
+        assert (E0 : pooled_in r (mkBlock false (bpool B) (bvt B) (bn B) (RawMem s)) = 0) by reflexivity.
+        assert (E1 : pooled_in r B = 0).
+        { unfold pooled_in. rewrite Hba, Et. reflexivity. }
+        rewrite E0, E1 in E. rewrite (i_cnt _ I r Hrq). lia.
+      * apply (i_refs _ I).
+      * apply (i_alive _ I).
+      * apply (i_hnd _ I).
+    + unfold routed_ok; proj. simpl. rewrite Hs, Hbn, Hbv. apply Z.eqb_refl.
+    + unfold balanced; proj.
+      pose proof (out_set_block st b (mkBlock false (bpool B) (bvt B) (bn B) (RawMem s)) Hb) as E1.
+      fold B in E1. unfold raw_out in E1; proj. rewrite Hba, Et in E1. simpl in E1. lia.
+Qed.
+
+(* ------------------------------------------------------------------ all histories *)
+Lemma step_good_all st o : inv st -> proto_ok st o = true -> h_ok st o = true -> step_good st o.
+Proof.
+  intros I Hp HH. destruct o.
+  - apply step_new; auto.
+  - apply step_copy; auto.
+  - apply step_rebind; auto.
+  - apply step_socc; auto.
+  - apply step_assign; auto.
+  - apply step_destroy; auto.
+  - apply step_alloc; auto.
+  - apply step_dealloc; auto.
+Qed.
+
+Fixpoint sum_allocs (l : list obs) : nat := match l with [] => 0 | o :: r => o_allocs o + sum_allocs r end.
+Fixpoint sum_frees (l : list obs) : nat := match l with [] => 0 | o :: r => o_frees o + sum_frees r end.
+
+Lemma run_good st ops : inv st -> good true st ops = true ->
+  exists st' obs, run st ops = Ok (st', obs) /\ inv st' /\ Forall (fun o => routed_ok o = true) obs /\
+    outstanding st' + sum_frees obs = outstanding st + sum_allocs obs.
+Proof.
+  revert st. induction ops as [|o r IH]; intros st I G.
+  - exists st, []. simpl. repeat split; auto.
+  - simpl in G. repeat rewrite andb_true_iff in G. destruct G as [[Hp HH] Hr]. simpl in HH.
+    destruct (step_good_all st o I Hp HH) as [st1 [ob [Es [I1 [R1 B1]]]]].
+    rewrite Es in Hr. destruct (IH st1 I1 Hr) as [st2 [obs [Er [I2 [R2 B2]]]]].
+    exists st2, (ob :: obs). simpl. rewrite Es, Er. repeat split; auto.
+    unfold balanced in B1. simpl. lia.
+Qed.
